@@ -28,7 +28,9 @@ RULE = ("(a) EXHAUSTIVE: every one of the 10^6 sub-second microsecond values (x 
         " A further job writes datetime64[us] values from the whole representable range (incl. the ends of Python's "
         'datetime range) as channel data and properties through a file.'
         ' Raw timestamp chunks of a lazily opened file are collected first and compared afterwards (second chunk '
-        'reversed); field accessors and scalar equality of TimestampArray are checked.')
+        'reversed); field accessors and scalar equality of TimestampArray are checked.'
+        ' Values are also handed over in nanosecond unit (1678 - 2262); a re-used root object gets a timestamp '
+        'property changed in place.')
 ASSUMPTIONS = [
     "exact time = 1904-01-01 + seconds + fractions/2^64 as a Fraction",
     "'within one unit' is checked as <= (1 + 1e-6) units: float64 evaluation may overshoot a unit by ~1e-10 units",
